@@ -108,7 +108,7 @@ theorem attribution (asStr : V → Option (List Char)) (ops : List (Op V R)) (hd
        (∃ name body, ops[j]? = some (.err σ name body) ∧
           f = .remoteError name (errorFields asStr body).1 (errorFields asStr body).2) ∨
        (ops[j]? = some (.expire (callId ops i)) ∧ truthyTimeout tmo = true ∧
-          f = .timeOut C08Client.timeoutText.toList) ∨
+          f = .timeOut localText) ∨
        (∃ r, ops[j]? = some (.lost r) ∧ f = .lost r)) := by
   rw [(trace_call_open asStr hd hi).1] at hf
   have hfc : firstCompletion asStr σ (callId ops i) (truthyTimeout tmo) (ops.drop (i + 1)) = some f := by
@@ -435,7 +435,7 @@ theorem retry_during_loss_times_out :
       [.call 3 true (some 5) .noCheck, .call 5 true none .noCheck, .lost 1, .call 4 true (some 3) .noCheck,
        .expire 2, .expire 2] ∧
     DistinctSerials (flatOps exAsStr retryOps) ∧
-    firingsOf 2 (finalR exAsStr retryOps).base.log = [.timeOut C08Client.timeoutText.toList] ∧
+    firingsOf 2 (finalR exAsStr retryOps).base.log = [.timeOut localText] ∧
     (finalR exAsStr retryOps).base.pending = [] ∧ (finalR exAsStr retryOps).base.timers = [] ∧
     (finalR exAsStr retryOps).base.faults = [] := by decide
 
